@@ -16,7 +16,16 @@ Parts:
            extensions stay valid.  Coq: Conv/CorrMeta.v check (the conversion model of C01), theorem C07_conversion_valid.
   reuse    converted volumes split along time / vector / slice, merged, merged again from the same pieces; after EVERY
            step EVERY wrapper produced so far is validated again.  Oracle only.
-In `ops` too, every extension produced so far (start, partners, earlier results) is re-validated after every step."""
+  convops  histories whose start is the extension embedded by a conversion (the operations are drawn at run time from the
+           case's seed, because they depend on the shape of the conversion result).  Coq: Ext/OpsCorr.v check_ops.
+In `ops` too, every extension produced so far (start, partners, earlier results) is re-validated after every step.
+
+What counts as a C07 failure (AUDIT-2 TOP 9): an extension is judged as the library PRODUCED it, never through the
+validating NiftiWrapper constructor: after inject / to_nifti it is read from the NIfTI header directly; where the producing
+call itself ends in that constructor (to_nifti_wrapper, NiftiWrapper.split / from_sequence), a MissingExtensionError /
+InvalidExtensionError of the producing call IS the failure ("produced an extension the library itself rejects").  Every
+result is also serialised, loaded again with from_json, written with to_filename and read back.  Exceptions other than
+those mean that nothing was produced and are not C07's business."""
 import os, copy, json
 from fractions import Fraction
 from vlib.coqlit import cnat, cbool, clist, copt, cpair, cstr, cjv
@@ -59,6 +68,8 @@ ASSUMPTIONS = [
     'values: Python == coincides with structural equality (one value kind per key in a case; never 1 / 1.0 / True mixed)',
     'key order of results is not modelled (compared as unordered maps; C13_key_order_* shows the model does not depend on it)',
     'a history stops at the first operation that raises / is refused (Ops.run); inject refusals (return code 1) are Err EValue',
+    'the borrowed correspondence checks (conv: C01 Conv/CorrMeta.v; imgmerge / imgsplit / imgrt: C03 / C04 / C05 Wrapper/Corr.v) '
+    'carry BORROWED_FROM; their oracles are restricted to the C07 clauses, which are evaluated before the borrowed ones',
     'stack conversion: C07_conversion_valid is the validity half of C01_lossless with its hypotheses (well-formed stack, files '
     'covered, slice normals pairwise np.allclose: open finding N9); permutation and output affine are read from the '
     'implementation as in C01; that an object produced EARLIER stays valid when later operations run is a heap property, '
@@ -126,7 +137,13 @@ def gen_inject(rng, shape, sdim, known_keys):
           and (sdim is not None or PYCLS[c][1] != 'slices')]
     r = rng.random()
     key = rng.choice(list(INJ_KEYS))
-    kind = INJ_KEYS[key]
+    # a key that (very probably) exists already, mostly with --force-overwrite and into whatever class is drawn (usually
+    # another one than the key sits in): the old entry has to go from the class that holds it
+    existing = [k for k in sorted(known_keys) if KIND_OF.get(k, INJ_KEYS.get(k)) in INJ_POOL]
+    overwrite = bool(existing) and rng.random() < 0.45
+    if overwrite:
+        key = rng.choice(existing)
+    kind = KIND_OF.get(key, INJ_KEYS.get(key))
     c = rng.choice(ok)
     n = mult(d, c)
     what = 'ok'
@@ -140,7 +157,7 @@ def gen_inject(rng, shape, sdim, known_keys):
     vals = [copy.deepcopy(rng.choice(INJ_POOL[kind])) for _ in range(n)]
     if kind == 'str' and len(set(vals)) == 1 and n > 1 and rng.random() < 0.5:
         vals[-1] = 'zz'
-    force = rng.random() < 0.5
+    force = rng.random() < (0.85 if overwrite else 0.5)
     typ = rng.choice([None, kind]) if kind != 'str' else rng.choice([None, 'str'])
     return {'op': 'inject', 'cls': c, 'key': key, 'values': vals, 'vkind': kind, 'type': typ, 'force': force, 'what': what}
 
@@ -150,9 +167,22 @@ def gen_history(rng, tier):
     shape, sdim, fam = gen_start_shape(rng, tier)
     aff = gen_affine(rng)
     E0 = gen_keyed_ext(rng, shape, sdim, aff, widen=rng.choice([0.0, 0.3, 0.6]))
+    ops, labels = gen_ops(rng, maxlen, shape, sdim, aff, set(k for k, _, _ in E0['entries']))
+    kind = 'ops/%s/%s' % (fam, '+'.join(sorted(set(labels))))
+    return {'kind': kind, 'ext': E0, 'ops': ops}
+
+
+def gen_ops(rng, maxlen, shape, sdim, aff, known, partner_pool=None, shared=True):
+    """1..maxlen operations for an extension of the given shape / slice dim / affine holding the keys `known`.
+    `partner_pool`: the key names merge partners may use (default KEYS); `shared=False`: partners never use a key of `known`
+    (their value kinds are not under the generator's control)."""
+    pool = list(partner_pool or KEYS)
     ops, labels = [], []
     cur_shape, cur_aff = list(shape), aff
-    known = set(k for k, _, _ in E0['entries'])
+    known = set(known)
+    mine = set()                # keys whose value kind this generator controls
+    if shared:
+        mine |= known
     n_ops = rng.randint(1, maxlen)
     last_subset = None
     for _ in range(n_ops):
@@ -186,7 +216,7 @@ def gen_history(rng, tier):
                 paff = cur_aff
                 if sdim is not None and rng.random() < 0.15:
                     paff = other_normal_affine(rng, cur_aff, sdim)
-                pk = rng.sample(KEYS, rng.randint(0, 3)) + [k for k in sorted(known) if rng.random() < 0.6]
+                pk = rng.sample(pool, rng.randint(0, min(3, len(pool)))) + [k for k in sorted(mine) if rng.random() < 0.6]
                 pk = list(dict.fromkeys(pk))
                 partners.append(gen_keyed_ext(rng, cur_shape, sdim, paff, keys=pk, widen=rng.choice([0.0, 0.3, 0.6])))
             pos = rng.randint(0, n_partners)
@@ -203,21 +233,22 @@ def gen_history(rng, tier):
             cur_shape = merge_shape(cur_shape, dim, n_partners + 1)
             for P in partners:
                 known |= set(k for k, _, _ in P['entries'])
+                mine |= set(k for k, _, _ in P['entries'])
             labels.append('merge')
         elif r < 0.77:
-            ks = [k for k in sorted(known) if rng.random() < 0.4] + rng.sample(KEYS, rng.randint(0, 2))
+            ks = [k for k in sorted(known) if rng.random() < 0.4] + rng.sample(pool, rng.randint(0, min(2, len(pool))))
             ops.append({'op': 'filter', 'keys': list(dict.fromkeys(ks))})
             labels.append('filter')
         elif r < 0.85:
             ops.append({'op': 'clear'})
             labels.append('clear')
         else:
-            op = gen_inject(rng, cur_shape, sdim, known)
+            op = gen_inject(rng, cur_shape, sdim, mine)
             ops.append(op)
             known.add(op['key'])
+            mine.add(op['key'])
             labels.append('inject')
-    kind = 'ops/%s/%s' % (fam, '+'.join(sorted(set(labels))))
-    return {'kind': kind, 'ext': E0, 'ops': ops}
+    return ops, labels
 
 
 # ------------------------------------------------------------------------------------------ implementation side
@@ -231,11 +262,22 @@ def _check(ext):
         out['valid'] = False
         out['valid_msg'] = str(e)[:200]
     try:
-        json.loads(ext.to_json())
+        text = ext.to_json()
+        json.loads(text)
         out['json'] = True
     except Exception as e:      # noqa: BLE001
         out['json'] = False
         out['json_msg'] = str(e)[:200]
+        return out
+    # what was serialised loads again (from_json validates) and is the same extension
+    try:
+        back = type(ext).from_json(text)
+        out['reload'] = json.loads(back.to_json()) == json.loads(text)
+        if not out['reload']:
+            out['reload_msg'] = 'from_json(to_json()) is a different extension'
+    except Exception as e:      # noqa: BLE001
+        out['reload'] = False
+        out['reload_msg'] = 'from_json(to_json()) raised %s: %s' % (type(e).__name__, str(e)[:160])
     return out
 
 
@@ -246,6 +288,8 @@ def still_valid(ext):
         return 'fails check_valid: %s' % c.get('valid_msg')
     if not c['json']:
         return 'cannot be serialised: %s' % c.get('json_msg')
+    if c.get('reload') is False:
+        return 'does not load again: %s' % c.get('reload_msg')
     try:
         return check_rules(ext_to_json(ext))
     except Exception as e:      # noqa: BLE001
@@ -253,11 +297,20 @@ def still_valid(ext):
 
 
 def _err_obs(e):
+    if hasattr(X, 'exc_obs'):
+        return X.exc_obs(e)
     name = type(e).__name__
-    if name == 'ValueError' and str(e).startswith('abs:'):
-        return {'err': 'ECrash', 'exc': 'Abstraction', 'msg': str(e)}
+    if isinstance(e, getattr(X, 'AbstractionError', ())) or (name == 'ValueError' and str(e).startswith('abs:')):
+        return {'err': 'ECrash', 'exc': 'Abstraction', 'msg': str(e)[:200]}
     return {'err': X.ERRMAP.get(name, 'ECrash'), 'exc': name, 'msg': str(e)[:200]}
 
+
+class ProducedNothing(Exception):
+    """a producing operation reported success but left no (single) extension"""
+
+
+# exception classes that mean "the operation produced an extension the library itself rejects"
+REJECTS_OWN_PRODUCT = ('MissingExtensionError', 'InvalidExtensionError', 'ProducedNothing', 'Abstraction')
 
 _INJ_COUNTER = [0]
 
@@ -286,8 +339,11 @@ def real_inject(ext, op):
             rc = nitool_cli.inject(ns)
         if rc != 0:
             return 'refused'
-        w = dcmmeta.NiftiWrapper.from_filename(path)
-        return w.meta_ext
+        # NOT through NiftiWrapper (its constructor validates and would hide an invalid product as "no extension")
+        found = [e for e in nb.load(path).header.extensions if e.get_code() == dcmmeta.dcm_meta_ecode]
+        if len(found) != 1:
+            raise ProducedNothing('after a successful inject the file carries %d DcmMeta extensions' % len(found))
+        return found[0]
     finally:
         if os.path.exists(path):
             os.remove(path)
@@ -300,10 +356,15 @@ def run_ops(case):
     except Exception as e:      # noqa: BLE001  (make_empty did not provide a required dictionary)
         return {'start': {'valid': False, 'json': False, 'valid_msg': 'make_empty + filling the class dictionaries raised %s: %s'
                           % (type(e).__name__, str(e)[:120])}, 'steps': []}
+    return run_steps(ext, case['ops'])
+
+
+def run_steps(ext, ops_list):
+    np, dcmmeta = X._imports()
     start = _check(ext)
     steps = []
     live = [('the start extension', ext)]       # every extension produced so far (inputs, partners, results), by identity
-    for si, op in enumerate(case['ops']):
+    for si, op in enumerate(ops_list):
         def go():
             if op['op'] == 'subset':
                 r = ext.get_subset(op['dim'], op['idx'])
@@ -412,14 +473,16 @@ def oracle_ops(case, obs):
     for i, (op, s) in enumerate(zip(case['ops'], obs['steps'])):
         name = op['op']
         if 'err' in s:
-            if s.get('exc') == 'Abstraction':
-                return 'step %d (%s) produced an extension that breaks the format: %s' % (i, name, s.get('msg'))
+            if s.get('exc') in REJECTS_OWN_PRODUCT:
+                return 'step %d (%s) produced an extension that breaks the format (%s): %s' % (i, name, s.get('exc'), s.get('msg'))
             return None         # nothing was produced; raising is not what C07 forbids
         R = s['ext']
         if not s.get('valid'):
             return 'step %d (%s): result fails check_valid: %s' % (i, name, s.get('valid_msg'))
         if not s.get('json'):
             return 'step %d (%s): result cannot be serialised: %s' % (i, name, s.get('json_msg'))
+        if s.get('reload') is False:
+            return 'step %d (%s): the serialised result does not load again: %s' % (i, name, s.get('reload_msg'))
         m = check_rules(R)
         if m:
             return 'step %d (%s): %s' % (i, name, m)
@@ -534,6 +597,33 @@ def _wobs(w):
     return o
 
 
+def _written(w, tag):
+    """NiftiWrapper.to_filename + reading the file back WITHOUT the validating constructor: None, or what went wrong"""
+    np, dcmmeta = X._imports()
+    import nibabel as nb
+    work = os.environ.get('VERIF_WORK') or os.path.join(os.path.dirname(os.path.dirname(os.path.abspath(__file__))), 'work', 'C07')
+    os.makedirs(work, exist_ok=True)
+    _INJ_COUNTER[0] += 1
+    path = os.path.join(work, 'written_%s_%d_%d.nii.gz' % (tag, os.getpid(), _INJ_COUNTER[0]))
+    try:
+        try:
+            w.to_filename(path)
+        except Exception as e:      # noqa: BLE001
+            return 'to_filename raised %s: %s' % (type(e).__name__, str(e)[:160])
+        found = [e for e in nb.load(path).header.extensions if e.get_code() == dcmmeta.dcm_meta_ecode]
+        if len(found) != 1:
+            return 'the written file carries %d DcmMeta extensions' % len(found)
+        m = still_valid(found[0])
+        if m:
+            return 'the extension read back from the written file %s' % m
+        if ext_to_json(found[0]) != ext_to_json(w.meta_ext):
+            return 'the extension read back from the written file differs from the one written'
+        return None
+    finally:
+        if os.path.exists(path):
+            os.remove(path)
+
+
 def run_wrap(case):
     def go():
         np, dcmmeta = X._imports()
@@ -543,14 +633,17 @@ def run_wrap(case):
             nii = nb.Nifti1Image(np.zeros(tuple(img['shape']), dtype=np.int16), np.array(img['aff'], dtype=float))
             nii.header.set_dim_info(slice=img['slice'])
             w = dcmmeta.NiftiWrapper(nii, make_empty=True)
-            return {'whole': _wobs(w)}
+            return {'whole': _wobs(w), 'written': _written(w, 'e')}
         w = X.build_data_wrapper(case['ext'], img)
         out = {'whole': _wobs(w)}
         pieces = list(w.split(case['dim']))
         out['pieces'] = [_wobs(p) for p in pieces]
+        if pieces:
+            out['written'] = _written(pieces[-1], 'p')
         try:
             m = dcmmeta.NiftiWrapper.from_sequence(pieces, case['dim'])
             out['merged'] = _wobs(m)
+            out['written'] = out.get('written') or _written(m, 'm')
         except Exception as e:      # noqa: BLE001
             out['merged'] = {'err': type(e).__name__, 'msg': str(e)[:200]}
         return out
@@ -585,12 +678,18 @@ def oracle_wrap(case, obs):
     if 'crash' in obs:
         return 'harness: %s' % obs.get('msg')
     if 'err' in obs:
-        if case['mode'] == 'split' and trailing1(case['img']['shape']) and obs.get('exc') == 'KeyError':
-            return None         # region of the open finding N2 (reported by C04)
+        if obs.get('exc') in REJECTS_OWN_PRODUCT:
+            return '%s produced an extension the library itself rejects (%s): %s' % (case['mode'], obs.get('exc'), obs.get('msg'))
+        if case['mode'] == 'split' and obs.get('exc') == 'KeyError' and n2_mechanism(case['ext'], case['dim']) and \
+                ('exc_key' not in obs or not hasattr(X, 'n2_vanishing_base')
+                 or obs['exc_key'] == X.n2_vanishing_base(case['ext'], case['dim'])):
+            return None         # exactly the open finding N2 (reported by C04): KeyError on the vanished base; nothing is produced
         return '%s raised %s: %s' % (case['mode'], obs.get('exc'), obs.get('msg'))
     m = _agree(obs['whole'], 'wrapped image')
     if m:
         return m
+    if obs.get('written'):
+        return 'NiftiWrapper.to_filename: %s' % obs['written']
     for i, p in enumerate(obs.get('pieces', [])):
         m = _agree(p, 'piece %d of split(%d)' % (i, case['dim']), full=False)
         if m:
@@ -600,7 +699,22 @@ def oracle_wrap(case, obs):
         m = _agree(mg, 'NiftiWrapper.from_sequence of the pieces')
         if m:
             return m
+    elif mg is not None and mg.get('err') in REJECTS_OWN_PRODUCT:
+        return 'NiftiWrapper.from_sequence of the pieces produced an extension the library itself rejects (%s): %s' % (mg['err'], mg.get('msg'))
     return None
+
+
+def n2_mechanism(E, dim):
+    """the mechanism of the open finding N2 (C04), re-derived from the case: the subset axis is a non-slice spatial axis (or
+    the time axis of a 5-D shape), the shape has a trailing singleton axis so that the piece loses a dimension, and some key
+    sits in a class of that vanishing base: get_subset writes it to a dictionary the piece does not have (KeyError)"""
+    sh = E['shape']
+    if not trailing1(sh) or dim >= len(sh):
+        return False
+    if not ((dim < 3 and dim != E['sdim']) or (dim == 3 and len(sh) == 5)):
+        return False
+    piece = subset_shape(sh, dim)
+    return any(class_ok(sh, c) and not class_ok(piece, c) for _, c, _ in E['entries'])
 
 
 class WrapPart:
@@ -631,11 +745,14 @@ class WrapPart:
 
     @staticmethod
     def signature(case, obs, msg):
-        return 'wrap/%s/%s' % (case['mode'], shape_family(case['img']['shape']))
+        return 'wrap/%s/%s' % (case['mode'], msg.split(':')[0].split(' of ')[0].replace(' ', '-')[:40])
 
     @staticmethod
     def nontrivial(case, obs):
-        return True
+        # an extension was produced and judged, and it is not an empty one on a 3-D image
+        if not isinstance(obs, dict) or 'whole' not in obs:
+            return False
+        return len(obs['whole']['img_shape']) > 3 or bool(obs.get('pieces')) and any(p['ext']['entries'] for p in obs['pieces'])
 
     @staticmethod
     def shrink(case):
@@ -649,39 +766,74 @@ class WrapPart:
 # ------------------------------------------------------------------------------------------ region of the open finding N10
 
 def run_degen(case):
-    def go():
+    inj = case['inject']
+    out = {}
+    try:
         ext = build_ext(case['ext'])
-        r = real_inject(ext, case['inject'])
-        if isinstance(r, str):
-            return {'refused': True}
-        out = {'stored': ext_to_json_raw(r, case['inject'])}
-        out.update(_check(r))
-        try:
-            piece = r.get_subset(case['dim'], 0)
-            out['read_back'] = X._plain(piece.get_values(case['inject']['key']))
-        except Exception as e:      # noqa: BLE001
-            out['read_exc'] = type(e).__name__
-        return out
-    return X._guard(go)
+    except Exception as e:      # noqa: BLE001
+        return {'stage': 'build', 'err': 'ECrash', 'exc': type(e).__name__, 'msg': str(e)[:160]}
+    try:
+        r = real_inject(ext, inj)
+    except Exception as e:      # noqa: BLE001
+        return {'stage': 'inject', 'err': 'ECrash', 'exc': type(e).__name__, 'msg': str(e)[:160]}
+    if isinstance(r, str):
+        return {'refused': True}
+    # where did the value go (public accessors only)
+    held = []
+    for cls in r.get_valid_classes():
+        d = r.get_class_dict(cls)
+        for k in d:
+            held.append([X.CLSNAME[tuple(cls)], k, X._plain(d[k])])
+    out['held'] = held
+    out.update(_check(r))
+    try:
+        piece = r.get_subset(case['dim'], 0)
+        out['read_back'] = X._plain(piece.get_values(inj['key']))
+    except Exception as e:      # noqa: BLE001
+        out['read_exc'] = type(e).__name__
+    return out
 
 
-def ext_to_json_raw(ext, inj):
-    base, sub = PYCLS[inj['cls']]
-    return X._plain(ext._content[base][sub].get(inj['key']))
+def degen_facts(case, obs):
+    """(stored_bare, readback_wrong): the two halves of N10's mechanism, from the case and the observation"""
+    inj = case['inject']
+    want = inj['values'][0]
+    mine = [h for h in obs.get('held', []) if h[1] == inj['key']]
+    stored_bare = len(mine) == 1 and mine[0][0] == inj['cls'] and mine[0][2] == want and not isinstance(mine[0][2], list)
+    wrong = 'read_exc' in obs or obs.get('read_back') != want
+    return stored_bare, wrong
 
 
 def oracle_degen(case, obs):
     if 'crash' in obs:
         return 'harness: %s' % obs.get('msg')
-    if 'err' in obs or obs.get('refused'):
-        return None
-    want = case['inject']['values'][0]
-    if 'read_exc' in obs:
-        return ('a value injected under %s (multiplicity 1) cannot be read back from the piece of get_subset(%d, 0): %s'
-                % (case['inject']['cls'], case['dim'], obs['read_exc']))
-    if obs.get('read_back') != want:
-        return ('value %r injected under %s (multiplicity 1) reads back as %r from the piece of get_subset(%d, 0)'
-                % (want, case['inject']['cls'], obs.get('read_back'), case['dim']))
+    inj = case['inject']
+    if 'err' in obs:
+        return 'inject into an empty %r extension: %s raised %s: %s' % (case['ext']['shape'], obs.get('stage'), obs.get('exc'), obs.get('msg'))
+    if obs.get('refused'):
+        return 'inject of one value under %s (valid for the shape, multiplicity 1) was refused' % inj['cls']
+    msgs = []
+    if not obs.get('valid'):
+        msgs.append('the extension after inject fails check_valid: %s' % obs.get('valid_msg'))
+    if not obs.get('json'):
+        msgs.append('the extension after inject cannot be serialised: %s' % obs.get('json_msg'))
+    elif obs.get('reload') is False:
+        msgs.append('the extension after inject does not load again: %s' % obs.get('reload_msg'))
+    mine = [h for h in obs.get('held', []) if h[1] == inj['key']]
+    others = [h for h in obs.get('held', []) if h[1] != inj['key']]
+    if others:
+        msgs.append('inject created other keys: %r' % [h[1] for h in others])
+    if len(mine) != 1 or mine[0][0] != inj['cls']:
+        msgs.append('key %r is held by %r after injecting it under %s' % (inj['key'], [h[0] for h in mine], inj['cls']))
+    elif mine[0][2] not in (inj['values'][0], [inj['values'][0]]):
+        msgs.append('inject stored %r for the value %r' % (mine[0][2], inj['values'][0]))
+    if msgs:
+        return msgs[0]          # anything but the known mechanism comes first
+    stored_bare, wrong = degen_facts(case, obs)
+    if wrong:
+        how = obs.get('read_exc') or 'reads back as %r' % (obs.get('read_back'),)
+        return ('value %r injected under %s (multiplicity 1) %s from the piece of get_subset(%d, 0)'
+                % (inj['values'][0], inj['cls'], how, case['dim']))
     return None
 
 
@@ -690,21 +842,32 @@ class DegenPart:
     CORR_CHECK = None
     IMPL_TIMEOUT = 30
     RULE = ('open finding N10: nitool inject of one value under a varying class of multiplicity one (("time","samples") of an '
-            '(X,Y,Z,1) image, ("vector","samples") of an (X,Y,Z,T,1) image), then get_subset along that axis and reading the key '
-            'back; oracle only, outside the nondegenerate domain of the model')
+            '(X,Y,Z,1) image, ("vector","samples") of an (X,Y,Z,T,1) image, per-slice classes of a single-slice image), then '
+            'get_subset along that axis and reading the key back; the injected extension itself must be valid, serialisable and '
+            'hold exactly the injected key; oracle only, outside the nondegenerate domain of the model')
 
     @staticmethod
     def gen_cases(rng, tier):
         out = []
-        for _ in range(6 if tier == 'quick' else 30):
+        for _ in range(9 if tier == 'quick' else 40):
             sh = [rng.randint(1, 3) for _ in range(3)]
-            if rng.random() < 0.6:
+            sd = rng.choice([0, 1, 2, None])
+            r = rng.random()
+            if r < 0.4:
                 sh, cls, dim = sh + [1], 'TSamples', 3
-            else:
+            elif r < 0.7:
                 sh, cls, dim = sh + [rng.randint(2, 3), 1], 'VSamples', 4
+            else:
+                # a single-slice image: the per-slice classes have multiplicity one
+                sd = rng.choice([0, 1, 2])
+                sh[sd] = 1
+                if rng.random() < 0.5:
+                    cls, dim = 'GSlices', sd
+                else:
+                    sh, cls, dim = sh + [rng.randint(2, 3)], 'TSlices', sd
             kind = rng.choice(['str', 'str', 'int'])
             v = rng.choice(['abc', 'x y', 'Müller']) if kind == 'str' else rng.choice([7, 12, 100])
-            E = mk_E(sh, rng.choice([0, 1, 2, None]), gen_affine(rng), {})
+            E = mk_E(sh, sd, gen_affine(rng), {})
             out.append({'kind': 'degen/' + cls, 'ext': E, 'dim': dim,
                         'inject': {'op': 'inject', 'cls': cls, 'key': 'InjD', 'values': [v], 'type': None if kind == 'int' else 'str', 'force': False}})
         return out
@@ -714,11 +877,22 @@ class DegenPart:
 
     @staticmethod
     def signature(case, obs, msg):
-        return 'inject/degenerate-class/bare-value'
+        # N10 = inject accepted one value for a VARYING class of multiplicity one, stored it BARE under that class, the
+        # extension passes check_valid, and the value does not survive being indexed as a list
+        inj = case['inject']
+        d = dims(case['ext'])
+        in_region = inj['cls'] != 'GConst' and class_ok(case['ext']['shape'], inj['cls']) and mult(d, inj['cls']) == 1 \
+            and len(inj['values']) == 1
+        if in_region and isinstance(obs, dict) and 'held' in obs and obs.get('valid') is True and obs.get('json') is True:
+            stored_bare, wrong = degen_facts(case, obs)
+            if stored_bare and wrong and msg.startswith('value '):
+                return 'inject/degenerate-class/bare-value'
+        return 'degen/%s' % ('crash' if not isinstance(obs, dict) or 'crash' in obs else
+                             obs.get('stage') or ('refused' if obs.get('refused') else 'wrong-product'))
 
     @staticmethod
     def nontrivial(case, obs):
-        return True
+        return isinstance(obs, dict) and 'held' in obs and any(h[1] == case['inject']['key'] for h in obs['held'])
 
 
 # ------------------------------------------------------------------------------------------ stack conversion
@@ -745,11 +919,7 @@ def stacking_axes(case, arr):
     a = np.asarray(arr)
     while a.ndim < 5:
         a = a.reshape(a.shape + (1,))
-    sigs = set()
-    for spec in case['files']:
-        npx = spec['rows'] * spec['cols']
-        vals = (np.arange(npx, dtype=np.uint32) * 7 + 31 * spec['id'] + 5) % 4000
-        sigs.add(tuple(sorted(int(x) for x in vals)))
+    sigs = set(M.pixel_signatures(case))        # pixel multisets of the source files (generator side)
     out = []
     for ax in range(3):
         ok, seen = True, set()
@@ -772,8 +942,23 @@ def stacking_axes(case, arr):
 
 def _convert(dcmstack, dcmmeta, st, case):
     if case['via'] == 'wrapper':
-        return st.to_nifti_wrapper(case['vo'])
-    return dcmmeta.NiftiWrapper(st.to_nifti(case['vo'], embed_meta=True))
+        return st.to_nifti_wrapper(case['vo'])          # MissingExtensionError here = the embedded extension is invalid
+    # to_nifti: the embedded extension is read from the header directly, not through the validating NiftiWrapper
+    import types
+    nii = st.to_nifti(case['vo'], embed_meta=True)
+    found = [e for e in nii.header.extensions if e.get_code() == dcmmeta.dcm_meta_ecode]
+    if len(found) != 1:
+        raise ProducedNothing('to_nifti(embed_meta=True) left %d DcmMeta extensions in the header' % len(found))
+    return types.SimpleNamespace(nii_img=nii, meta_ext=found[0])
+
+
+def stack_files(st):
+    """(position in the stack's list, per-file extension) of every file of the stack; the ONE place that reads the stack's
+    private file list (no public accessor exists); a missing attribute is a harness diagnostic, not a verdict"""
+    infos = getattr(st, '_files_info', None)
+    if infos is None:
+        return None
+    return [(i, fi[0].meta_ext) for i, fi in enumerate(infos)]
 
 
 def run_conv07(case):
@@ -787,13 +972,17 @@ def run_conv07(case):
         out['c01'] = M.run_conv(case)               # the observation the conversion model (Conv/CorrMeta.v) is compared with
     except Exception as e:      # noqa: BLE001  (e.g. the output planes are not where the header says the slices are)
         out['c01'] = {'conv_crash': '%s: %s' % (type(e).__name__, str(e)[:200])}
-    st, dss, wid, truth, affs = M.build_stack(dcmstack, case)
-    per_file = [(wid[id(fi[0])], fi[0].meta_ext) for fi in st._files_info]
+    st = M.build_stack(dcmstack, case)[0]
+    per_file = stack_files(st)
+    if per_file is None:
+        out['harness'] = 'no-file-list'
+        per_file = []
     out['files_before'] = [[fid, still_valid(x)] for fid, x in per_file]
     try:
         w = _convert(dcmstack, dcmmeta, st, case)
     except Exception as e:      # noqa: BLE001
         out['err'] = '%s: %s' % (type(e).__name__, str(e)[:200])
+        out['err_exc'] = type(e).__name__
         return out
     out['whole'] = _wobs(w)
     out['axes'] = stacking_axes(case, np.asanyarray(w.nii_img.dataobj))
@@ -805,10 +994,14 @@ def run_conv07(case):
 def oracle_conv(case, obs):
     if 'crash' in obs:
         return 'harness: %s' % obs.get('msg')
+    if obs.get('harness'):
+        return 'harness: %s' % obs['harness']
     for fid, m in obs.get('files_before', []):
         if m:
             return 'the extension made for source file %d (from_dicom_wrapper) %s' % (fid, m)
     if 'err' in obs:
+        if obs.get('err_exc') in REJECTS_OWN_PRODUCT:
+            return 'the conversion embedded an extension the library itself rejects: %s' % obs['err']
         return None             # nothing was produced (refusals / crashes of the conversion are C11's and C01's)
     m = _agree(obs['whole'], 'DicomStack.to_nifti(%r, embed_meta=True)' % case['vo'])
     if m:
@@ -824,6 +1017,7 @@ def oracle_conv(case, obs):
 
 class ConvPart(M._Base):
     NAME = 'conv'
+    BORROWED_FROM = 'C01'       # the correspondence check (Conv/CorrMeta.v) is C01's; a mismatch there is a C01 matter
     SHARD = 10
     RULE = ('DicomStack.to_nifti(order, embed_meta=True) / to_nifti_wrapper(order) on synthetic complete grids (stacklib / convmeta '
             'generators: 3-5 D incl. (x,y,z,1,n), explicit / guessed ordering, hand-built and extracted metadata) for axial, '
@@ -857,7 +1051,9 @@ class ConvPart(M._Base):
 
     @staticmethod
     def nontrivial(case, obs):
-        return isinstance(obs, dict) and 'whole' in obs
+        # a conversion that embedded a non-empty extension into a reordered or 4-D / 5-D image
+        return isinstance(obs, dict) and 'whole' in obs and bool(obs['whole']['ext']['entries']) and \
+            (bool(case['vo']) or len(obs['whole']['img_shape']) > 3)
 
 
 # ------------------------------------------------------------------------------------------ converted volumes split, merged, re-used
@@ -889,16 +1085,14 @@ def run_reuse(case):
             settle(name, f())
             return True
         except Exception as e:      # noqa: BLE001
-            steps.append({'step': name, 'exc': '%s: %s' % (type(e).__name__, str(e)[:160]), 'bad': []})
+            steps.append({'step': name, 'exc': '%s: %s' % (type(e).__name__, str(e)[:160]), 'exc_cls': type(e).__name__, 'bad': []})
             settle(name + ' (after the exception)', [])
             return False
 
     try:
         w = _convert(dcmstack, dcmmeta, st, case)
     except Exception as e:      # noqa: BLE001
-        return {'err': '%s: %s' % (type(e).__name__, str(e)[:200])}
-    for i, fi in enumerate(st._files_info[:4]):
-        pass
+        return {'err': '%s: %s' % (type(e).__name__, str(e)[:200]), 'err_exc': type(e).__name__}
     settle('to_nifti_wrapper', [('the converted image', w)])
     nd = len(w.nii_img.shape)
     box = {}
@@ -942,8 +1136,12 @@ def oracle_reuse(case, obs):
     if 'crash' in obs:
         return 'harness: %s' % obs.get('msg')
     if 'err' in obs:
+        if obs.get('err_exc') in REJECTS_OWN_PRODUCT:
+            return 'the conversion embedded an extension the library itself rejects: %s' % obs['err']
         return None
     for s in obs['steps']:
+        if s.get('exc_cls') in REJECTS_OWN_PRODUCT:
+            return '%s produced an extension the library itself rejects: %s' % (s['step'], s['exc'])
         for m in s['bad']:
             return 'after %s: %s' % (s['step'], m)
     return None
@@ -985,7 +1183,138 @@ class ReusePart:
         return M.shrink(case)
 
 
-PARTS = [OpsPart, WrapPart, DegenPart, ConvPart, ReusePart]
+# ------------------------------------------------------------------------------------------ histories that start from a conversion result
+
+PARTNER_POOL = ['pk0', 'pk1', 'pk2', 'pk3', 'InjS', 'InjI', 'InjF']      # never a key a conversion can produce
+
+
+def run_convops(case):
+    """DicomStack conversion, then a history of extension-level operations on the EMBEDDED extension object itself.
+    The operations are drawn here (deterministically, from case['seed']) because they depend on the shape of the result."""
+    import random
+    import warnings
+    warnings.simplefilter('ignore')
+    import dcmstack
+    from dcmstack import dcmmeta
+    st = M.build_stack(dcmstack, case['conv'])[0]
+    try:
+        w = _convert(dcmstack, dcmmeta, st, case['conv'])
+        ext = w.meta_ext
+        E0 = ext_to_json(ext)
+    except Exception as e:      # noqa: BLE001
+        o = _err_obs(e)
+        o['stage'] = 'conversion'
+        return o
+    rng = random.Random(case['seed'])
+    ops, _ = gen_ops(rng, case['maxlen'], E0['shape'], E0['sdim'], E0['aff'], set(k for k, _, _ in E0['entries']),
+                     partner_pool=PARTNER_POOL, shared=False)
+    obs = run_steps(ext, ops)
+    obs['ext0'], obs['ops'] = E0, ops
+    return obs
+
+
+def _convops_view(obs):
+    return {'ext': obs['ext0'], 'ops': obs['ops']}
+
+
+class ConvOpsPart:
+    NAME = 'convops'
+    CORR_REQUIRE = OpsPart.CORR_REQUIRE
+    CORR_CASE_TYPE = OpsPart.CORR_CASE_TYPE
+    CORR_CHECK = OpsPart.CORR_CHECK
+    CORR_SHOW = OpsPart.CORR_SHOW
+    SHARD = 25
+    IMPL_TIMEOUT = 120
+    RULE = ('histories (as in `ops`) whose start is the extension EMBEDDED by DicomStack.to_nifti / to_nifti_wrapper on a synthetic '
+            'series (hand-built metadata of every value type, every voxel order, 3-5 D incl. (x,y,z,1,n)); the converted extension '
+            'is an input of the model (abstracted from the real object), every later step is compared; partners use fresh keys')
+
+    @staticmethod
+    def gen_cases(rng, tier):
+        out = []
+        for _ in range(60 if tier == 'quick' else 500):
+            c = M.gen_case(rng, tier, shape_class=rng.choice([None, None, '5d', 'vec_t1', '3d']), meta_mode='hand',
+                           orders=[rng.choice(M.ALL_ORDERS)])
+            out.append({'kind': 'convops/' + c['kind'].split('/', 1)[1], 'conv': c, 'seed': rng.randrange(1 << 30),
+                        'maxlen': 3 if tier == 'quick' else 5})
+        return out
+
+    run_impl = staticmethod(run_convops)
+
+    @staticmethod
+    def coq_case(case, obs):
+        if not isinstance(obs, dict) or 'ext0' not in obs:
+            raise ValueError('the conversion produced no extension to start from')
+        return ops_case_to_coq(_convops_view(obs), obs)
+
+    @staticmethod
+    def oracle(case, obs):
+        if 'crash' in obs:
+            return 'harness: %s' % obs.get('msg')
+        if 'ext0' not in obs:
+            if obs.get('exc') in REJECTS_OWN_PRODUCT:
+                return 'the conversion embedded an extension the library itself rejects (%s): %s' % (obs.get('exc'), obs.get('msg'))
+            return 'the conversion of a complete grid raised %s: %s' % (obs.get('exc'), obs.get('msg'))
+        return oracle_ops(_convops_view(obs), obs)
+
+    @staticmethod
+    def signature(case, obs, msg):
+        if not isinstance(obs, dict) or 'ext0' not in obs:
+            return 'convops/conversion'
+        return 'conv' + OpsPart.signature(_convops_view(obs), obs, msg)
+
+    @staticmethod
+    def nontrivial(case, obs):
+        return isinstance(obs, dict) and 'ext0' in obs and \
+            len([s for s in obs.get('steps', []) if 'ext' in s]) >= 1 and bool(obs['ext0']['entries'])
+
+
+from props import imglib      # noqa: E402
+
+
+SIG_N11_WRAPPER = 'merge/slice-dim-arg-mismatch/own-product-rejected'
+
+
+def n11_wrapper_mechanism(case):
+    """the images to be merged agree on a header slice dim d (NiftiWrapper.from_sequence passes slice_dim=d to the extension
+    merge) while some input extension records another slice_dim: the mechanism of the open finding N11, at wrapper level"""
+    ws = case.get('ws') or ([case['w']] if 'w' in case else [])
+    if not ws:
+        return False
+    sls = [W['img']['slice'] for W in ws]
+    if sls[0] is None or any(x != sls[0] for x in sls):
+        return False
+    own = [W['img']['slice'] if W.get('ext') is None else W['ext']['sdim'] for W in ws]
+    return any(x != sls[0] for x in own)
+
+
+def c07_img(part):
+    """imglib part restricted to the C07 statements (imglib evaluates every clause and prefers one that is not an open
+    finding); in addition an extension the library itself rejects, surfacing as an exception of the PRODUCING call, is a
+    C07 failure whatever the borrowed clauses say about the exception"""
+    base = imglib.for_property(part, 'C07')
+    OWN = 'C07: [own-product-rejected] '
+
+    class P(base):
+        BORROWED_FROM = {'imgmerge': 'C03', 'imgsplit': 'C04', 'imgrt': 'C05'}.get(part.NAME)
+
+        @staticmethod
+        def oracle(case, obs):
+            m = base.oracle(case, obs)
+            if m is None and isinstance(obs, dict) and obs.get('exc') in REJECTS_OWN_PRODUCT:
+                return OWN + '%s produced an extension the library itself rejects (%s): %s' % (part.NAME, obs.get('exc'), obs.get('msg'))
+            return m
+
+        @staticmethod
+        def signature(case, obs, msg):
+            if msg.startswith(OWN):
+                return SIG_N11_WRAPPER if n11_wrapper_mechanism(case) else '%s/own-product-rejected' % part.NAME
+            return part.signature(case, obs, msg)
+    P.__name__ = base.__name__
+    return P
+
+
+PARTS = [OpsPart, WrapPart, DegenPart, ConvPart, ReusePart, ConvOpsPart]
 
 # [HOOK, image level] The image halves of C07 (extension geometry == image geometry after NiftiWrapper.from_sequence / split;
 # theorems Props/C07img.v, model coq/Wrapper/*, parts in props/imglib.py, open finding N8) belong to the image-level agent and
@@ -999,7 +1328,7 @@ PARTS = [OpsPart, WrapPart, DegenPart, ConvPart, ReusePart]
 from props import imglib
 COQ_PROPS = [COQ_PROPS, 'Props/C07img.v']
 THEOREMS = list(THEOREMS) + imglib.THEOREMS['Props/C07img.v']
-PARTS = list(PARTS) + [imglib.for_property(p, 'C07') for p in (imglib.ImgMergePart, imglib.ImgSplitPart, imglib.ImgRoundTripPart)]
+PARTS = list(PARTS) + [c07_img(p) for p in (imglib.ImgMergePart, imglib.ImgSplitPart, imglib.ImgRoundTripPart)]
 TRUSTED_BASE = list(TRUSTED_BASE) + imglib.TRUSTED_BASE
 ASSUMPTIONS = list(ASSUMPTIONS) + imglib.ASSUMPTIONS
 
